@@ -365,6 +365,19 @@ class Engine:
                 if ty == 'bool':
                     return z3.BoolVal(int(m.group(1), 16) != 0)
                 return Opaque('transmute:' + ty, int(m.group(1), 16))
+        # aggregate constants: `Path::<..>::Variant(const args)` / `Path { f: const, .. }`
+        if s.endswith(')') and not s.startswith('<'):
+            op = match_paren(s, len(s) - 1)
+            if op and re.match(r'^[A-Za-z_][\w:<>, &\[\]\']*$', s[:op]):
+                args = [self.eval_const(st, a[6:] if a.startswith('const ') else a) for a in split_top(s[op + 1:-1])]
+                return self.mk_adt(strip_generics(s[:op]), args)
+        m = re.match(r'^([A-Za-z_][\w:<>, &]*) \{ (.*) \}$', s)
+        if m:
+            flds = []
+            for f in split_top(m.group(2)):
+                val = f.split(': ', 1)[1]
+                flds.append(self.eval_const(st, val[6:] if val.startswith('const ') else val))
+            return self.mk_adt(strip_generics(m.group(1)), flds)
         # `Type::<..>::CONST`, `path::CONST`, `<T as Trait>::CONST`, fn items, unit structs / unit variants
         return self.eval_path_const(st, s)
 
@@ -509,6 +522,8 @@ class Engine:
             if op == 'discriminant':
                 l, p = self.parse_place(inner)
                 v = self.read_place(st, fid, l, p)
+                if isinstance(v, SymEnum):
+                    return I(v.v, 64, True)
                 return I(self.variant_index(v), 64, True)
             if op == 'Len':
                 l, p = self.parse_place(inner); v = self.read_place(st, fid, l, p)
@@ -649,6 +664,8 @@ class Engine:
                 return I(z3.If(v, z3.BitVecVal(1, w), z3.BitVecVal(0, w)), w, sg)
             if isinstance(v, Adt):   # fieldless enum as integer
                 return I(self.variant_index(v), w, sg)
+            if isinstance(v, SymEnum):
+                return I(z3.Extract(w - 1, 0, v.v) if w < 64 else v.v, w, sg)
             if w == v.w: return I(v.v, w, sg)
             if w < v.w: return I(z3.Extract(w - 1, 0, v.v), w, sg)
             return I(z3.SignExt(w - v.w, v.v) if v.s else z3.ZeroExt(w - v.w, v.v), w, sg)
@@ -973,7 +990,7 @@ class Engine:
     # ------------------------------------------------------------------ calls
     def type_name_of(self, st, v):
         v = self.deref(st, v)
-        if isinstance(v, Adt): return v.ty
+        if isinstance(v, (Adt, SymEnum)): return v.ty
         if isinstance(v, Obj): return v.kind
         if isinstance(v, Str): return 'str' if v.is_str else '[u8]'
         if isinstance(v, I):
@@ -1027,7 +1044,11 @@ class Engine:
         loose = [(full, rec) for full, rec in lst
                  if (is_generic_ty(rec['trait_full'] or '') or is_generic_ty(rec['for_full']))
                  and ty_unifies(cmp_ty(rec['trait_full'] or ''), tr) and ty_unifies(cmp_ty(rec['for_full']), xs)]
-        return loose
+        if loose:
+            return loose
+        # the callee may name a generic type without its arguments (paths built from runtime type names)
+        bare = lambda t: re.sub(r'<[A-Z](?:,[A-Z])*>', '', t)
+        return [(full, rec) for full, rec in lst if bare(cmp_ty(rec['trait_full'] or '')) == tr and bare(cmp_ty(rec['for_full'])) == xs]
 
     def _resolve_names_uncached(self, name, cur_crate, raw=None):
         # 1. direct
@@ -1051,7 +1072,7 @@ class Engine:
             else:
                 x, tr = inner, None
             xl = type_last(x); trl = tr.split('::')[-1] if tr else None
-            if tr and self.is_foreign(x, cur_crate) and self.is_foreign(tr, cur_crate):
+            if tr and self.is_foreign(x, cur_crate) and self.is_foreign(tr, cur_crate) and not self._trait_args_local(raw, cur_crate):
                 return None          # orphan rule: no local impl of a foreign trait for a foreign type
             out = []
             for full, rec in self._filter_impls(self.impl_methods.get((xl, trl, item), []), raw):
@@ -1064,6 +1085,19 @@ class Engine:
                             for f in self.funcs[full]:
                                 if f not in out: out.append(f)
             return out or None
+        # 3a. items nested in a method (`Type::method::promoted[0]`, `Type::method::{closure#0}`)
+        segs = name.split('::')
+        for cut in range(len(segs) - 1, 1, -1):
+            tl, item, rest = segs[cut - 2], segs[cut - 1], '::'.join(segs[cut:])
+            hits = []
+            for (a, b, c), lst in self.impl_methods.items():
+                if a == tl and c == item:
+                    for full, rec in lst:
+                        cand = full + '::' + rest
+                        if cand in self.funcs and self.funcs[cand] not in hits:
+                            hits.append(self.funcs[cand])
+            if len(hits) == 1:
+                return hits[0]
         # 3. `path::Type::item` inherent (or trait method named through the type)
         if '::' in name:
             head, item = name.rsplit('::', 1)
@@ -1085,6 +1119,22 @@ class Engine:
             if out:
                 return out
         return None
+
+    def _trait_args_local(self, raw, cur_crate):
+        """`impl ForeignTrait<LocalType> for ForeignType` is allowed: does the callee's trait mention a local type?"""
+        if not raw or '>::' not in raw:
+            return False
+        inner = raw.strip()[1:raw.strip().rindex('>::')]
+        k = _find_top_as(inner)
+        if k < 0:
+            return False
+        tr = inner[k + 4:]
+        if '<' not in tr:
+            return False
+        for m in re.finditer(r'[A-Za-z_][A-Za-z0-9_]*(?:::[A-Za-z_][A-Za-z0-9_]*)+', tr[tr.index('<'):]):
+            if not self.is_foreign(m.group(0), cur_crate):
+                return True
+        return False
 
     def is_foreign(self, path, cur_crate):
         p = path.strip().lstrip('&')
@@ -1131,6 +1181,8 @@ class Engine:
                     sc += 3
                 if ta and ta in sig_ret:
                     sc += 1
+                if ta is None and len(sig_args) >= 2 and sig_args[1] in (xs, '&' + xs, '&mut ' + xs):
+                    sc += 3      # `Trait` without arguments: Rhs = Self
                 if xs in sig_ret:
                     sc += 1
             else:
@@ -1169,15 +1221,20 @@ class Engine:
             tsub = self.bind_generics(f, callee, args, st)
             self.push_frame(st, f, args, destp, ret_bb, tsub)
             return None
-        for pat, fn in self.models:
-            mm = pat.match(name)
-            if mm:
-                outs = fn(self, st, callee, args, mm)
-                if outs is None:
-                    continue
-                self.stats['calls_modelled'] += 1
-                self.used_models.add(pat.pattern)
-                return self.finish_model_call(st, fr, outs, destp, ret_bb)
+        names = [name]
+        gen = generic_slice_name(name)
+        if gen != name:
+            names.append(gen)
+        for nm in names:
+            for pat, fn in self.models:
+                mm = pat.match(nm)
+                if mm:
+                    outs = fn(self, st, callee, args, mm)
+                    if outs is None:
+                        continue
+                    self.stats['calls_modelled'] += 1
+                    self.used_models.add(pat.pattern)
+                    return self.finish_model_call(st, fr, outs, destp, ret_bb)
         raise Inconclusive('no body and no model for callee: ' + callee + '   [in ' + fr.fn.name + ']')
 
     def bind_generics(self, f, callee, args, st):
@@ -1185,19 +1242,38 @@ class Engine:
 
     def dynamic_dispatch(self, st, fr, callee, name, args):
         """`<T as Trait>::m(recv, ..)` with T a generic parameter: dispatch on the runtime receiver type."""
-        m = re.match(r'^<(&?(?:mut )?[A-Z]\w*) as (.*)>::(\w+)$', name)
-        if not m or not args:
+        if not args or not name.startswith('<') or '>::' not in name:
             return None
+        inner, item = name[1:name.rindex('>::')], name[name.rindex('>::') + 3:]
+        k = _find_top_as(inner)
+        if k < 0:
+            return None
+        x, trait = inner[:k].strip(), strip_generics(inner[k + 4:].strip())
+        xb = x.lstrip('&')
+        if xb.startswith('mut '): xb = xb[4:]
+        if not (re.match(r'^[A-Z]\w*$', xb) or xb.startswith('impl ')):
+            return None
+
+        class _M:
+            def group(self, i): return {2: trait, 3: item}[i]
+        m = _M()
         tn = self.type_name_of(st, args[0])
         if tn is None:
             return None
         tr = m.group(2).split('::')[-1]
-        cands = self._resolve_names(f'<{tn} as {m.group(2)}>::{m.group(3)}', fr.fn.crate, None)
+        raw2 = None
+        cs = callee.strip()
+        if cs.startswith('<') and '>::' in cs:
+            inner_raw = cs[1:cs.rindex('>::')]
+            kk = _find_top_as(inner_raw)
+            if kk >= 0:
+                raw2 = f'<{tn} as {inner_raw[kk + 4:]}>::{m.group(3)}'
+        cands = self._resolve_names(f'<{tn} as {m.group(2)}>::{m.group(3)}', fr.fn.crate, raw2)
         if not cands:
             return None
         if len(cands) == 1:
             return cands[0]
-        return self._pick_overload(f'<{tn} as {m.group(2)}>::{m.group(3)}', cands, args, st)
+        return self._pick_overload(raw2 or f'<{tn} as {m.group(2)}>::{m.group(3)}', cands, args, st)
 
     def finish_model_call(self, st, fr, outs, destp, ret_bb):
         fid = fr.fid
@@ -1284,6 +1360,36 @@ BUILTIN_ENUMS = {
     'Ordering': ['Less', 'Equal', 'Greater'], 'Cow': ['Borrowed', 'Owned'], 'Bound': ['Included', 'Excluded', 'Unbounded'],
     'Entry': ['Vacant', 'Occupied'], 'IpAddr': ['V4', 'V6'],
 }
+
+
+def generic_slice_name(name):
+    """`<impl [some::Type]>` / `[some::Type; 3]` -> `<impl [T]>` / `[T; 3]` so that the slice models written for `[T]` apply"""
+    def rep(m):
+        inner = m.group(1)
+        if inner in ('u8', 'T'):
+            return m.group(0)
+        mm = re.match(r'^(.*); (\d+)$', inner)
+        if mm:
+            return f'[T; {mm.group(2)}]'
+        return '[T]'
+    out, i, n = [], 0, len(name)
+    while i < n:
+        if name[i] == '[':
+            d, j = 0, i
+            while j < n:
+                if name[j] == '[': d += 1
+                elif name[j] == ']':
+                    d -= 1
+                    if d == 0: break
+                j += 1
+            class _M:
+                def __init__(s_, a, b): s_.a, s_.b = a, b
+                def group(s_, k): return s_.b if k else s_.a
+            out.append(rep(_M(name[i:j + 1], name[i + 1:j])))
+            i = j + 1
+        else:
+            out.append(name[i]); i += 1
+    return ''.join(out)
 
 
 def type_last(x):
